@@ -160,7 +160,7 @@ fn verif_native_c08_deformation_selection() {
     assert!(fails.is_empty(), "C08.N.deformation.selection: FAILSET{{{}}} {} of {} evaluations wrong, first: {:?}", ids.join(","), fails.len(), n, &fails[..fails.len().min(4)]);
 }
 
-//@n {"id":"C02.N.independence","props":["C02"],"tier":"quick","bound":"40 operator definitions (projections, cart, static and 14-parameter helmert, molodensky, latitude, permtide, adapt/axisswap/unitconvert, dm, stack pipelines, gridshift and deformation over two overlapping generated grids) x both directions x a 60-tuple set with mixed epochs (incl. the reference epoch and NaN), out-of-domain members, NaN members and duplicates; through Plain","text":"transforming a set gives bit-identical per-tuple results to transforming every tuple alone, in reversed order, and in chunks of 7; the success count of the whole equals the sum over its parts; repeating the transformation on a fresh copy gives the same result (operators are immutable)"}
+//@n {"id":"C02.N.independence","props":["C02"],"tier":"quick","bound":"46 operator definitions (projections, cart, static and 14-parameter helmert, molodensky, latitude, permtide, adapt/axisswap/unitconvert, dm, stack pipelines, gridshift and deformation over two overlapping generated grids) x both directions x a 60-tuple set with mixed epochs (incl. the reference epoch and NaN), both poles and projection origins, out-of-domain members, NaN members and duplicates; through Plain","text":"transforming a set gives bit-identical per-tuple results to transforming every tuple alone, in reversed order, and in chunks of 7; the success count of the whole equals the sum over its parts; repeating the transformation on a fresh copy gives the same result (operators are immutable)"}
 #[test]
 fn verif_native_c02_independence() {
     setup();
@@ -177,12 +177,14 @@ fn verif_native_c02_independence() {
         "adapt from=neuf_deg", "adapt from=seuf_gon to=wnuf", "axisswap order=2,-1,3", "unitconvert xy_in=us-ft z_in=ft", "dm", "dms", "noop", "addone",
         "stack push=1,2 | addone | stack pop=2,1", "stack push=3 | cart | stack flip=3 | stack pop=3", "push v_1 v_2 | addone | pop v_1 v_2",
         "gridshift grids=verif_a.datum, verif_b.datum", "gridshift grids=verif_b.datum, verif_a.datum, @null", "deformation dt=1 grids=verif_a.deformation, verif_b.deformation", "cart | helmert x=100 dx=1 t_epoch=2010 | cart inv",
+        "deformation t_epoch=2000 grids=verif_a.deformation, verif_b.deformation", "deformation raw t_epoch=2015.5 grids=verif_b.deformation, verif_a.deformation",
+        "lcc lat_1=-33 lat_2=-45 lat_0=-35 lon_0=10", "helmert s=1 ds=0.5 t_epoch=2010", "laea lat_0=-90 lon_0=30", "merc lon_0=20 lat_ts=-40",
     ];
     // the set: points around the generated grids, globally, projected-size, with mixed epochs
     let mut set: Vec<Coor4D> = Vec::new();
     let epochs = [2010.0, 2020.5, 2010.0, f64::NAN, 1999.0, 2020.5];
     let mut k = 0;
-    for (lat, lon) in [(56.0, 11.0), (54.5, 9.0), (57.25, 11.0), (56.0, 11.0), (40.0, 0.0), (58.25, 9.0), (-33.0, 151.0), (89.0, -170.0), (0.0, 0.0), (54.5, 9.0)] {
+    for (lat, lon) in [(56.0, 11.0), (54.5, 9.0), (57.25, 11.0), (56.0, 11.0), (40.0, 0.0), (58.25, 9.0), (-33.0, 151.0), (89.0, -170.0), (0.0, 0.0), (54.5, 9.0), (90.0, 12.0), (-90.0, -30.0), (55.0, 10.0), (90.0, 10.0), (0.0, 10.0)] {
         for h in [0.0, 1234.5] {
             set.push(Coor4D::geo(lat, lon, h, epochs[k % 6]));
             k += 1;
@@ -193,6 +195,17 @@ fn verif_native_c02_independence() {
             set.push(Coor4D([x, y, z, epochs[k % 6]]));
             k += 1;
         }
+    }
+    // cartesian members (inside and outside the generated deformation grids), for the operators that work on X, Y, Z
+    {
+        let to_cart = ctx.op("cart").unwrap();
+        let mut xyz: Vec<Coor4D> = Vec::new();
+        for (lat, lon) in [(56.0, 11.0), (54.5, 9.0), (57.25, 11.0), (56.5, 10.5), (40.0, 0.0), (55.5, 15.0)] {
+            xyz.push(Coor4D::geo(lat, lon, 100.0, epochs[k % 6]));
+            k += 1;
+        }
+        ctx.apply(to_cart, Fwd, &mut xyz).unwrap();
+        set.extend(xyz);
     }
     for s in [f64::NAN, f64::INFINITY, 1e300] {
         set.push(Coor4D([s, 0.5, 0.0, 2010.0]));
